@@ -16,6 +16,8 @@ def run(cmd, nq, nt, **kw):
 PROPS = {
     "C19": {
         "runs": [run("c19", 600, 6000)],
+        "level_text": "Theorems (all item sequences with lengths 1..2^32-1 resp. 1..2^16-1, all bytes, any checksum function): written files read back exactly with equal checksums for both format versions; framing injective; KV helpers invert each other and CompareKV = bytes.Compare on keys (keys < 65536 bytes). The model is tied to item.go/file.go by evaluating it in Coq on the byte streams the real writer/reader produced and consumed.",
+        "level_note": "Full for the format logic. os/bufio modelled as byte sink/source; crc32 compared on generated inputs; zero-length items and keys >= 65536 bytes are explicit hypotheses (refuted variants proved).",
         "assumptions": [
             "os and bufio are an append-only byte sink / sequential byte source (trusted)",
             "hash/crc32.ChecksumIEEE is compared with the Coq crc32 on every generated input; theorems hold for any checksum function",
